@@ -180,13 +180,16 @@ func specNil() polSpec {
 func genSpec(rng *hk.Rand, pool []authority) polSpec {
 	switch rng.Intn(8) {
 	case 0:
-		return specMax(rng.Range(0, 5))
+		return specMax(rng.Range(-1, 5))
 	case 1:
 		return specSameHost()
 	case 2:
 		return specSameDomain()
 	case 3, 4:
 		n := rng.Range(1, len(pool))
+		if rng.Chance(8) {
+			n = 0 // no host named: everything is refused
+		}
 		var as []authority
 		for j := 0; j < n; j++ {
 			as = append(as, pool[rng.Intn(len(pool))])
